@@ -827,6 +827,9 @@ regp_recv(RegP *p, RPMaybeFrame *mf)
     case RP_EP_TCP: {
         const ssize_t rc = lenp_decode_source_to_sink(&p->ep.source, &recv);
         if (rc < 0) {
+            if (cs.buffer.data != NULL) {
+                block_free(p->alloc, cs.buffer.data);
+            }
             return rc;
        }
     } break;
@@ -836,6 +839,9 @@ regp_recv(RegP *p, RPMaybeFrame *mf)
         RFC1055Context slip = RFC1055_CONTEXT_INIT_DEFAULT;
         const int rc = rfc1055_decode(&slip, &p->ep.source, &recv);
         if (rc < 0) {
+            if (cs.buffer.data != NULL) {
+                block_free(p->alloc, cs.buffer.data);
+            }
             return rc;
         }
     } break;
